@@ -103,3 +103,77 @@ Proof.
 Qed.
 
 End Names.
+
+(* ====================================================================== ArxmlFile::set_filename *)
+Lemma nodup_map_replace (g g' : N -> list N) (f : N) (name : list N) l :
+  (forall y, y <> f -> g' y = g y) -> g' f = name ->
+  NoDup (map g l) -> (forall y, In y l -> y <> f -> g y <> name) -> NoDup (map g' l).
+Proof.
+  intros Hsame Hf. induction l as [|a l IH]; intros ND Hne; cbn [map] in *; [constructor|].
+  apply NoDup_cons_iff in ND as (Hna & ND'). constructor.
+  - intros Hin. apply in_map_iff in Hin as (y & Hy & Hyl).
+    destruct (N.eq_dec a f) as [->|Haf]; destruct (N.eq_dec y f) as [->|Hyf].
+    + apply Hna. apply in_map. exact Hyl.
+    + rewrite Hf, (Hsame y Hyf) in Hy. apply (Hne y (or_intror Hyl) Hyf). exact Hy.
+    + rewrite Hf, (Hsame a Haf) in Hy. apply (Hne a (or_introl eq_refl) Haf). symmetry. exact Hy.
+    + rewrite (Hsame y Hyf), (Hsame a Haf) in Hy. apply Hna. rewrite <- Hy. apply in_map. exact Hyl.
+  - apply IH; auto. intros y Hy. apply Hne. right. exact Hy.
+Qed.
+
+(* a rejected rename leaves the world as it is *)
+Theorem set_filename_rejected f name w e w' : f_set_filename f name w = Val (ER e, w') -> w' = w /\ e = DuplicateFilenameError.
+Proof.
+  intros H. unfold f_set_filename in H.
+  apply wbind_inv in H as [(fl & w1 & H1 & H) | (e0 & H1 & _)]; [|apply get_file_inv in H1 as (? & _ & [=] & _)].
+  apply get_file_inv in H1 as (fl' & Hfl & [= <-] & ->).
+  apply wbind_inv in H as [(x & w1 & H1 & H) | (e0 & H1 & _)]; [|apply get_model_inv in H1 as (? & _ & [=] & _)].
+  apply get_model_inv in H1 as (x' & Hx & [= <-] & ->).
+  apply wbind_inv in H as [(w0 & w1 & H1 & H) | (e0 & H1 & _)]; [|apply wget_inv in H1 as ([=] & _)].
+  apply wget_inv in H1 as ([= ->] & ->).
+  destruct (name_taken w x f name).
+  - apply wfail_inv in H as ([= <-] & ->). auto.
+  - unfold set_file in H. discriminate H.
+Qed.
+
+(* a successful rename changes only the record of that file (its name), and keeps FilesOwned and NamesUnique *)
+Theorem set_filename_ok f name w u w' : FilesOwned w -> NamesUnique w -> f_set_filename f name w = Val (OK u, w') ->
+  (exists fl, nth_opt (w_files w) (N.to_nat f) = Some fl /\
+     w' = mkWorld (w_nodes w) (w_next w) (list_set (w_files w) (N.to_nat f) (mkFile (f_model fl) name (f_version fl) (f_standalone fl))) (w_models w)) /\
+  FilesOwned w' /\ NamesUnique w'.
+Proof.
+  intros O NU H. unfold f_set_filename in H.
+  apply wbind_inv in H as [(fl & w1 & H1 & H) | (e0 & H1 & [=])].
+  apply get_file_inv in H1 as (fl' & Hfl & [= <-] & ->).
+  apply wbind_inv in H as [(x & w1 & H1 & H) | (e0 & H1 & [=])].
+  apply get_model_inv in H1 as (x' & Hx & [= <-] & ->).
+  apply wbind_inv in H as [(w0 & w1 & H1 & H) | (e0 & H1 & [=])].
+  apply wget_inv in H1 as ([= ->] & ->).
+  destruct (name_taken w x f name) eqn:Et; [apply wfail_inv in H as ([=] & _)|].
+  unfold set_file in H. injection H as _ <-.
+  set (nfl := mkFile (f_model fl) name (f_version fl) (f_standalone fl)).
+  set (w2 := mkWorld (w_nodes w) (w_next w) (list_set (w_files w) (N.to_nat f) nfl) (w_models w)).
+  assert (forall g, g <> f -> name_at w2 g = name_at w g) as Hsame.
+  { intros g Hg. unfold name_at, w2. cbn. rewrite !nth_opt_error, nth_error_list_set.
+    destruct (Nat.eqb (N.to_nat g) (N.to_nat f)) eqn:E; [|reflexivity]. apply Nat.eqb_eq in E. apply Nnat.N2Nat.inj in E. contradiction. }
+  assert (name_at w2 f = name) as Hnew.
+  { unfold name_at, w2. cbn. rewrite nth_opt_error, nth_error_list_set, Nat.eqb_refl. rewrite nth_opt_error in Hfl. rewrite Hfl. reflexivity. }
+  split; [exists fl; split; auto|]. split.
+  - intros m0 x0 f0 Hx0 Hf0. unfold model_b in Hx0. cbn in Hx0 |- *.
+    destruct (O m0 x0 f0 Hx0 Hf0) as (gl & Hgl & Hm).
+    rewrite nth_opt_error, nth_error_list_set. rewrite nth_opt_error in Hgl, Hfl.
+    destruct (Nat.eqb (N.to_nat f0) (N.to_nat f)) eqn:E.
+    + apply Nat.eqb_eq in E. rewrite E in *. rewrite Hgl. eexists. split; [reflexivity|]. cbn. congruence.
+    + exists gl. auto.
+  - intros m0 x0 Hx0. change (model_b w m0 = Some x0) in Hx0.
+    destruct (in_dec N.eq_dec f (m_files x0)) as [Hin|Hnin].
+    + (* f is a file of this model: then this is the model the check looked at *)
+      destruct (O m0 x0 f Hx0 Hin) as (gl & Hgl & Hm). assert (gl = fl) by congruence. subst gl.
+      assert (x0 = x) by (unfold model_b in Hx0; rewrite <- Hm in Hx0; congruence). subst x0.
+      apply (nodup_map_replace (name_at w) (name_at w2) f name); auto; [apply (NU m0 x Hx0)|].
+      intros y Hy Hyf Hyn. destruct (O m0 x y Hx0 Hy) as (yl & Hyl & _).
+      assert (name_taken w x f name = true) as Ht; [|congruence].
+      unfold name_taken. apply existsb_exists. exists y. split; auto.
+      apply Bool.andb_true_iff. split; [apply Bool.negb_true_iff, N.eqb_neq; exact Hyf|].
+      rewrite Hyl. apply bytes_eqb_spec. unfold name_at in Hyn. rewrite Hyl in Hyn. exact Hyn.
+    + rewrite (map_ext_in _ (name_at w)); [apply (NU m0 x0 Hx0)|]. intros y Hy. apply Hsame. intros ->. contradiction.
+Qed.
